@@ -117,33 +117,37 @@ func sortedKeys[V any](m map[Key]V) []Key {
 
 // RandomOpts tunes the random walk.
 type RandomOpts struct {
-	Steps        int
-	PassAtomic   bool    // run every pass to completion (reconcile-granularity interleaving)
-	EnvProb      float64 // probability of an environment action per step
-	Faults       int     // fault budget
-	Crashes      int     // crash budget
-	EnvBudget    int     // budget of disturbing env actions (ownership / deletion / edits / lifecycle)
-	AllowReown   bool
+	Steps         int
+	PassAtomic    bool    // run every pass to completion (reconcile-granularity interleaving)
+	EnvProb       float64 // probability of an environment action per step
+	Faults        int     // fault budget
+	Crashes       int     // crash budget
+	EnvBudget     int     // budget of disturbing env actions (ownership / deletion / edits / lifecycle)
+	AllowReown    bool
 	AllowCRDelete bool
-	AllowArchive bool
-	AllowPause   bool
-	AllowOrphan  bool
-	Lag          bool // created PKO objects stay invisible to cached reads until an EnvSyncCache action
-	TemplateEdits int // budget of ObjectDeployment template edits / pause toggles
-	Race         bool // API mode: third party acts on an object right before the pass's pending write on it
-	Settle       bool // after the walk: fair round-robin until quiescent, then a Quiesced event
+	AllowArchive  bool
+	AllowPause    bool
+	AllowOrphan   bool
+	Conflicts     int  // budget of 409 Conflict answers to patch / update requests (also dry-run ones)
+	Lag           bool // created PKO objects stay invisible to cached reads until an EnvSyncCache action
+	TemplateEdits int  // budget of ObjectDeployment template edits / pause toggles
+	Race          bool // API mode: third party acts on an object right before the pass's pending write on it
+	Settle        bool // after the walk: fair round-robin until quiescent, then a Quiesced event
 }
 
 // inflight keeps at most one pass per controller.
 type walker struct {
-	w       *World
-	rng     *rand.Rand
-	flight  map[string]*Pass
-	opts    RandomOpts
-	faults  int
-	crashes int
-	envLeft int
-	tmplLeft int
+	w         *World
+	rng       *rand.Rand
+	flight    map[string]*Pass
+	opts      RandomOpts
+	faults    int
+	conflicts int
+	crashes   int
+	envLeft   int
+	tmplLeft  int
+	// stand-alone ObjectSlices a user deleted (restored later): key -> object
+	goneSlices map[Key]*unstructured.Unstructured
 }
 
 func (wk *walker) startRandomPass() bool {
@@ -211,11 +215,26 @@ func (wk *walker) stepRandomPass() bool {
 		wk.faults--
 		fault = []string{"before", "after"}[wk.rng.Intn(2)]
 	}
+	// a patch or update (also a dry-run one) can be answered with 409 Conflict: the object was written to while
+	// the API server was merging the request
+	conflictFor := func() string {
+		if wk.conflicts > 0 && p.Pending != nil && wk.rng.Intn(8) == 0 {
+			switch p.Pending.verb {
+			case "ApplyPatch", "MergePatch", "Update", "StatusUpdate":
+				wk.conflicts--
+				return "conflict"
+			}
+		}
+		return ""
+	}
 	n := 1
 	if wk.opts.PassAtomic {
 		n = 1 << 20
 	}
 	for i := 0; i < n; i++ {
+		if fault == "" {
+			fault = conflictFor()
+		}
 		if wk.w.Step(p, fault) {
 			delete(wk.flight, a)
 			break
@@ -299,6 +318,37 @@ func (wk *walker) envAction() {
 		return
 	}
 	wk.envLeft--
+	// ObjectSlices that belong to no deployment (the user's own): deleted, or - the other order of the same two
+	// creations - not there yet when the ObjectSet referencing them is first reconciled; restored later
+	var userSlices []Key
+	for _, k := range w.Store.Keys() {
+		if k.Group == pkoGroup && k.Kind == "ObjectSlice" {
+			if m := w.Store.Snapshot(k); m != nil && metaOf(m)["ownerReferences"] == nil {
+				userSlices = append(userSlices, k)
+			}
+		}
+	}
+	if len(userSlices)+len(wk.goneSlices) > 0 && rng.Intn(5) == 0 {
+		if gone := sortedKeys(wk.goneSlices); len(gone) > 0 && (len(userSlices) == 0 || rng.Intn(2) == 0) {
+			k := gone[rng.Intn(len(gone))]
+			w.EnvCreate(wk.goneSlices[k])
+			delete(wk.goneSlices, k)
+		} else {
+			k := userSlices[rng.Intn(len(userSlices))]
+			u := &unstructured.Unstructured{Object: deepCopyMap(w.Store.Snapshot(k))}
+			md := metaOf(u.Object)
+			for _, f := range []string{"uid", "resourceVersion", "generation", "creationTimestamp", "deletionTimestamp", "finalizers"} {
+				delete(md, f)
+			}
+			if w.EnvDelete(k, false) {
+				if wk.goneSlices == nil {
+					wk.goneSlices = map[Key]*unstructured.Unstructured{}
+				}
+				wk.goneSlices[k] = u
+			}
+		}
+		return
+	}
 	r = rng.Intn(100)
 	switch {
 	case r < 15:
@@ -376,7 +426,7 @@ func RandomWalk(w *World, sc Scenario, seed int64, o RandomOpts) {
 	w.Reset(fmt.Sprintf("%s/seed=%d", sc.Name, seed))
 	sc.Setup(w)
 	wk := &walker{w: w, rng: rand.New(rand.NewSource(seed)), flight: map[string]*Pass{}, opts: o,
-		faults: o.Faults, crashes: o.Crashes, envLeft: o.EnvBudget, tmplLeft: o.TemplateEdits}
+		faults: o.Faults, conflicts: o.Conflicts, crashes: o.Crashes, envLeft: o.EnvBudget, tmplLeft: o.TemplateEdits}
 	w.Store.LagCreates = o.Lag
 	for i := 0; i < o.Steps; i++ {
 		r := wk.rng.Float64()
